@@ -171,9 +171,8 @@ func (m *MessageStore) processMessageLoop(ctx context.Context, tracer *messageMe
 		if device == nil {
 			// unknown device, lets keep moving
 			continue
-		} else if !hasKnownChainKey {
-			// we dont know the chain key yet, add message to the device cache
-			device.queue.Add(message)
+		} else if !hasKnownChainKey && m.addToDeviceCacheIfNoChainKey(device, message) {
+			// we dont know the chain key yet, the message has been added to the device cache
 			_ = m.emitters.groupCacheMessage.Emit(*message)
 			continue
 		}
@@ -225,6 +224,25 @@ func (m *MessageStore) getOrCreateDeviceCache(ctx context.Context, message *mess
 	}
 
 	return device, device.hasKnownChainKey
+}
+
+// addToDeviceCacheIfNoChainKey adds the message to the device cache, unless the chain key of
+// the device became known since getOrCreateDeviceCache released muDeviceCaches.
+// The flag is read again and the message is added with muDeviceCaches held: this way
+// ProcessMessageQueueForDevicePK either ran before (the flag is set, the message can be
+// processed right away) or runs after (it finds the message in the device queue). Without
+// this, it could run in between, find an empty device queue, and the message added afterwards
+// would stay in the cache until another message of the same device is processed.
+func (m *MessageStore) addToDeviceCacheIfNoChainKey(device *groupCache, message *messageItem) (added bool) {
+	m.muDeviceCaches.Lock()
+	defer m.muDeviceCaches.Unlock()
+
+	if device.hasKnownChainKey {
+		return false
+	}
+
+	device.queue.Add(message)
+	return true
 }
 
 // process the whole device queue (if any) into to the message queue
